@@ -195,6 +195,10 @@ class ConvexSpheropolygon(Shape2D):
         """
         num_verts = self.num_vertices
         verts = self._polygon.vertices[:, :2] - self._polygon.centroid[:2]
+        if self._polygon.normal[2] < 0:
+            # The core's vertices are ordered counterclockwise about its normal;
+            # the construction below needs them counterclockwise about +z.
+            verts = verts[::-1]
 
         # compute intermediates
         v1 = np.roll(verts, 1, axis=0)
